@@ -320,8 +320,12 @@ class ScriptAgent(object):
 VERSION_ARG = {"2": 2, "3.0": 3.0, "3.1": 3.1, "4.0": 4.0}
 
 
-def run_builder(version, all_metrics, no_colors, agent, max_reads=500, on_read=None):
-    """Real ask_interactively(version, all_metrics, no_colors) under the simulated terminal."""
+VERSION_ARG_ALT = {"2": 2.0, "3.0": 3, "3.1": 3.1, "4.0": 4}
+
+
+def run_builder(version, all_metrics, no_colors, agent, max_reads=500, on_read=None, alt_spelling=False):
+    """Real ask_interactively(version, all_metrics, no_colors) under the simulated terminal.
+    alt_spelling: pass the version number in its other numeric type (2.0 / 3 / 4 instead of 2 / 3.0 / 4.0)."""
     from cvss import interactive
 
     term = Terminal(agent, max_reads)
@@ -329,7 +333,8 @@ def run_builder(version, all_metrics, no_colors, agent, max_reads=500, on_read=N
     res = {"returned": None, "exc": None, "aborted": False}
     with _Installed(term):
         try:
-            r = interactive.ask_interactively(VERSION_ARG[version], all_metrics, no_colors)
+            varg = (VERSION_ARG_ALT if alt_spelling else VERSION_ARG)[version]
+            r = interactive.ask_interactively(varg, all_metrics, no_colors)
             res["returned"] = to_text(r) if isinstance(r, (text_type, binary_type)) else canon(r)
             res["returned_is_text"] = isinstance(r, (text_type, binary_type))
         except SimAbort:
@@ -675,7 +680,8 @@ def run_item(item, interp=None):
         return {"results": [it.run_op(op) for op in item["ops"]]}
     if k == "builder":
         agent = ScriptAgent(item["script"])
-        r = run_builder(item["version"], item["all"], item["nocolor"], agent, item.get("cap", 500))
+        r = run_builder(item["version"], item["all"], item["nocolor"], agent, item.get("cap", 500),
+                        alt_spelling=item.get("alt_version_spelling", False))
         return r
     if k == "cli":
         agent = ScriptAgent(item["script"])
